@@ -520,6 +520,9 @@ func parseFieldsCmd(args []string) int {
 	// EXECVE arguments
 	for i := 0; i < *n; i++ {
 		argc := 1 + rng.Intn(5)
+		if i%4 == 3 { // long argument lists: the count has two digits
+			argc = 10 + rng.Intn(31)
+		}
 		var sb strings.Builder
 		fmt.Fprintf(&sb, "argc=%d", argc)
 		vals := make([][]byte, argc)
@@ -544,6 +547,14 @@ func parseFieldsCmd(args []string) int {
 			w.write(rec)
 			stats["execve_args"]++
 		}
+		// the count itself is a plain field: it stays what the kernel wrote
+		rec := base("plain", 1309, "argc")
+		rec["orig"], rec["panic"], rec["body"] = bytesOfS(strconv.Itoa(argc)), pan, sb.String()
+		if g, ok := d["argc"]; ok {
+			rec["present"], rec["got"] = true, bytesOfS(g)
+		}
+		w.write(rec)
+		stats["plain"]++
 	}
 	// plain tokens, placeholders
 	plainChars := "abcdefghijklmnopqrstuvwxyzABCDEFGHIJKLMNOPQRSTUVWXYZ0123456789=:/.,-_+@%()[]{}<>!?*#~^|\\;&$"
